@@ -1667,11 +1667,12 @@ class SQLModel:
         expr_left = concat_node.sources[0]
         expr_right = concat_node.sources[1]
         if concat_node.id_column is not None:
-            expr_left = expr_left.extend(
-                {concat_node.id_column: f'"{concat_node.a_name}"'}
+            # labels are arbitrary text: hand them over as values, never by re-parsing them as expression source
+            expr_left = expr_left.extend_parsed_(
+                {concat_node.id_column: data_algebra.expr_rep.Value(concat_node.a_name)}
             )
-            expr_right = expr_right.extend(
-                {concat_node.id_column: f'"{concat_node.b_name}"'}
+            expr_right = expr_right.extend_parsed_(
+                {concat_node.id_column: data_algebra.expr_rep.Value(concat_node.b_name)}
             )
             using_joint.add(concat_node.id_column)
             terms.update({concat_node.id_column: None})
